@@ -31,7 +31,7 @@ try:
         for c in checks:
             t0 = time.time()
             e2 = dict(os.environ, VERIF_REPO=scratch, VERIF_EVIDENCE_DIR=scratch + '/evidence')
-            p = subprocess.run(['/verif/vcheck', c, '--tier', os.environ.get('TIER', 'quick')], env=e2, capture_output=True, text=True)
+            p = subprocess.run([os.environ.get('VERIF_DIR', '/verif') + '/vcheck', c, '--tier', os.environ.get('TIER', 'quick')], env=e2, capture_output=True, text=True)
             viol = [l for l in p.stdout.splitlines() if l.startswith('violated obligation')]
             err = [l for l in p.stderr.splitlines() if 'HARNESS-ERROR' in l or 'Error' in l]
             res['checks'][c] = dict(exit=p.returncode, secs=int(time.time() - t0),
